@@ -139,7 +139,11 @@ class C02:
         cr = ctx.prog.func("SyncManager.conflict_rename")
         muts = self.eff.provider_mutations(cr)
         only_rename = bool(muts) and all(m.func.attr == "rename" for m in muts)
-        name_ok = any(isinstance(n, ast.Constant) and isinstance(n.value, str) and ".conflicted" in n.value for n in ctx.own_nodes(cr))
+        # every name tried for the renamed loser carries the marker: all assignments to the variable joined into the new path
+        jn = [n for n in ctx.own_nodes(cr) if isinstance(n, ast.Call) and pat.match("self.providers[$S].join($F, $N)", n) is not None]
+        nvar = ast.unparse(pat.match("self.providers[$S].join($F, $N)", jn[0])["N"]) if jn else None
+        nasg = [n for n in ctx.own_nodes(cr) if isinstance(n, ast.Assign) and isinstance(n.targets[0], ast.Name) and n.targets[0].id == nvar]
+        name_ok = bool(nasg) and all(any(isinstance(x, ast.Constant) and isinstance(x.value, str) and ".conflicted" in x.value for x in ast.walk(a.value)) for a in nasg)
         loop = [n for n in ctx.own_nodes(cr) if isinstance(n, ast.While)]
         retry = any(isinstance(h, ast.ExceptHandler) and h.type is not None and "CloudFileExistsError" in ast.unparse(h.type) for lp in loop for h in ast.walk(lp))
         rep.check("C02.R4", "conflict_rename", cr, ok and only_rename and name_ok and retry, "rename only, '.conflicted' name, retry on exists",
